@@ -101,6 +101,36 @@ func c17Invariant(w *storWorld) (string, string) {
 			nM++
 		}
 	}
+	// FindFile (the by-content route to a file's providers) agrees with the prover lists read through the by-owner index
+	for _, m := range mk {
+		want := map[string]int{}
+		for _, f := range k.GetAllFileByOwner(w.f.Ctx) {
+			if fmt.Sprintf("%x", f.Merkle) != m {
+				continue
+			}
+			for _, pk := range f.Proofs {
+				if prov, ok := k.GetProviders(w.f.Ctx, strings.SplitN(pk, "/", 2)[0]); ok {
+					want[prov.Ip]++
+				}
+			}
+		}
+		r, err := k.FindFile(ctx, &storagetypes.QueryFindFile{Merkle: merkles[m]})
+		if err != nil {
+			return "C17/query-FindFile", err.Error()
+		}
+		got := map[string]int{}
+		for _, ip := range r.ProviderIps {
+			got[ip]++
+		}
+		if len(got) != len(want) {
+			return "C17/query-FindFile", fmt.Sprintf("FindFile(%s…) returns %v, the prover lists of those files give %v", m[:8], got, want)
+		}
+		for ip, n := range want {
+			if got[ip] != n {
+				return "C17/query-FindFile", fmt.Sprintf("FindFile(%s…) returns %v, the prover lists of those files give %v", m[:8], got, want)
+			}
+		}
+	}
 	if nO != len(byM) || nM != len(byM) {
 		return "C17/query-counts", fmt.Sprintf("indexes hold %d files; by-owner queries return %d, by-merkle queries %d", len(byM), nO, nM)
 	}
